@@ -32,6 +32,11 @@ def P(level, qc, qn, qs, tc, tn, ts, shards=16, **kw):
                 thorough=dict(cfgs=tc, shards=shards, cases=tn, scale=ts, maxsize=100, **kw))
 
 
+# coverage-guided slice (libFuzzer target src/fz_ops.cpp driving the property's own generator): (seconds, workers, scale)
+FUZZ_SLICE = {"quick": (12, 8, 700), "thorough": (420, 16, 1000)}  # scale is capped by the plan's scale
+FUZZ_PROPS = ("C01", "C02", "C03", "C04", "C05", "C06", "C07", "C08", "C09", "C13", "C17")
+
+
 PLANS = {
     "C01": P("exploration", SEM + ["small-omp"], 16000, 800, SEM + ["mid", "host-nosse", "small-omp"], 48000, 1500,
              env={"OMP_NUM_THREADS": "2", "OMP_WAIT_POLICY": "passive"}),
@@ -277,6 +282,81 @@ def generic_check(prop, tier, seed, plan=None, binaries=None, extra_args=None, s
     return merged
 
 
+def ops_fuzz_slice(prop, tier, seed, plan, merged):
+    """Coverage-guided slice: libFuzzer mutates the choice string of the property's generator (src/fz_ops.cpp); failing
+    recipes join merged["failures"] and are confirmed by replay with the ordinary binary like any other failure."""
+    import random
+    seconds, workers, scale = FUZZ_SLICE[tier]
+    scale = min(scale, plan["scale"])
+    if os.environ.get("VERIF_FUZZ_SECONDS"):
+        seconds = int(os.environ["VERIF_FUZZ_SECONDS"])
+    if os.environ.get("VERIF_FUZZ_SCALE"):
+        scale = int(os.environ["VERIF_FUZZ_SCALE"])
+    fz = vbuild.build_fuzzer("fz_ops", "small-fuzz")
+    rundir = os.path.join(RUN, "%s-%s-fuzz" % (prop, tier))
+    shutil.rmtree(rundir, ignore_errors=True)
+    cdir, adir, odir = (os.path.join(rundir, x) for x in ("corpus", "artifacts", "recipes"))
+    for d in (cdir, adir, odir):
+        os.makedirs(d)
+    rnd = random.Random(seed_for(seed, prop, "small-fuzz", 0))
+    for i in range(96):
+        open(os.path.join(cdir, "seed%02d" % i), "wb").write(bytes(rnd.randrange(256) for _ in range(1024)))
+    env = dict(os.environ)
+    env["ASAN_OPTIONS"] = "detect_leaks=0:allocator_may_return_null=1:quarantine_size_mb=64"
+    env["UBSAN_OPTIONS"] = "print_stacktrace=1"
+    env.update(VF_FZ_PROP=prop, VF_FZ_OUT=odir, VF_FZ_SCALE=str(scale), VF_FZ_TIER="1" if tier == "thorough" else "0", VF_TMP=rundir)
+    if plan.get("env"):
+        env.update(plan["env"])
+    procs = []
+    for wk in range(workers):
+        e = dict(env, VF_FZ_STATS=os.path.join(rundir, "stats-%d.json" % wk))
+        cmd = [fz, "-max_total_time=%d" % seconds, "-max_len=1024", "-len_control=0", "-use_value_profile=1", "-timeout=300",
+               "-rss_limit_mb=4000", "-artifact_prefix=" + adir + "/", "-seed=%d" % seed_for(seed, prop, "small-fuzz", wk + 1),
+               "-print_final_stats=1", cdir]
+        procs.append(subprocess.Popen(cmd, stdout=subprocess.DEVNULL, stderr=open(os.path.join(rundir, "fz-%d.log" % wk), "w"), env=e))
+    for pr in procs:
+        try:
+            pr.wait(timeout=seconds + 900)
+        except subprocess.TimeoutExpired:
+            pr.kill()
+    execs = 0
+    for wk in range(workers):
+        f = os.path.join(rundir, "stats-%d.json" % wk)
+        try:
+            st = json.load(open(f))
+        except Exception:
+            continue
+        execs += st["evaluations"]
+        merged["evaluations"] += st["evaluations"]
+        merged["subcases"] += st["subcases"]
+        for k, v in st["labels"].items():
+            merged["labels"][k] = merged["labels"].get(k, 0) + v
+        merged["nontrivial"].update(st["nontrivial"])
+        if wk < 2:
+            merged["samples"].extend(st["samples"][:2])
+        merged["per_cfg"]["small-fuzz(libFuzzer)"] = merged["per_cfg"].get("small-fuzz(libFuzzer)", 0) + st["evaluations"]
+    merged["labels"]["fuzz:executions"] = execs
+    recipes = sorted(glob.glob(os.path.join(odir, "viol-*.case"))) + sorted(glob.glob(os.path.join(odir, "crash-*.case")))
+    seen = set()
+    for r in recipes:
+        lines = open(r).read().splitlines()
+        body = [l for l in lines if l and not l.startswith("#")]
+        msg = " ".join(l[2:] for l in lines if l.startswith("# "))
+        if not body or body[0] in seen:
+            continue
+        seen.add(body[0])
+        kind = "oracle" if os.path.basename(r).startswith("viol-") else "crash"
+        merged["failures"].append(dict(kind=kind, cfg=plan["cfgs"][0], case=body[0], msg="[libFuzzer slice] " + msg, minimise=True))
+    return dict(target="fz_ops", workers=workers, seconds=seconds, scale=scale, executions=execs,
+                corpus_files=len(os.listdir(cdir)), failing_recipes=len(seen),
+                other_artifacts=len([a for a in os.listdir(adir) if not a.startswith("crash-")]))
+
+
+FUZZ_RULE = (" | coverage-guided slice: libFuzzer (target src/fz_ops.cpp, library objects instrumented for coverage and built with "
+             "fatal ASan+UBSan) mutates the choice string consumed by this same generator, so the reachable cases and the oracle "
+             "are the ones described above; a failing recipe counts only if it reproduces with the ordinary binary")
+
+
 def confirm(prop, fail, binaries, strict=False, extra_env=None, runs=3, need=2):
     """Replay a failure in fresh processes; returns path of the replay file if it reproduces."""
     if not fail["case"]:
@@ -295,7 +375,7 @@ def confirm(prop, fail, binaries, strict=False, extra_env=None, runs=3, need=2):
         if hits >= need:
             break
     if hits >= need:
-        if fail.get("kind") == "crash" and os.environ.get("VERIF_NO_MINIMISE") != "1":
+        if (fail.get("kind") == "crash" or fail.get("minimise")) and os.environ.get("VERIF_NO_MINIMISE") != "1":
             try:
                 minimise(prop, p, binaries[fail["cfg"]], strict, extra_env)
             except Exception as e:
@@ -561,8 +641,11 @@ def main():
         merged = generic_check(prop, tier, seed, plan, binaries, strict=strict)
         rule = subprocess.run([binaries[plan["cfgs"][0]], "rule", prop], stdout=subprocess.PIPE).stdout.decode().strip()
         extra = None
+        if prop in FUZZ_PROPS and os.environ.get("VERIF_NO_FUZZ") != "1":
+            extra = dict(fuzz_slice=ops_fuzz_slice(prop, tier, seed, plan, merged))
+            rule += FUZZ_RULE
         if tier == "thorough" and not any("wrap" in c for c in plan["cfgs"]):
-            extra = dict(line_coverage_of_anchors=anchor_coverage(prop, seed))
+            extra = dict(extra or {}, line_coverage_of_anchors=anchor_coverage(prop, seed))
         rc = finish(prop, tier, seed, PLANS[prop]["level"], merged, reg, rule, t0, strict=strict, extra_cov=extra)
     except RuntimeError as e:
         log("infrastructure failure:", str(e)[-3000:])
